@@ -114,3 +114,32 @@ Theorem C17_values_rows_in_order : forall q withnames bed rows,
   Forall2 (fun l r => vob_line q withnames (unique_names withnames bed) l = Ok r) (file_lines bed) rows.
 Proof. exact values_rows_in_order. Qed.
 Print Assumptions C17_values_rows_in_order.
+
+(* ================= the IEEE sum is the exact sum on a checkable domain =================
+   (Proofs/FloatExact.v, Proofs/FloatExactStats.v.)  C17_sum_exact is about the non-rounding mode; the
+   implementation accumulates in binary64.  For clipped values that are integer multiples of 2^G ([vgrid E G];
+   E a unit below every exponent) with  sum len*|val| < 2^53  units of 2^G, the IEEE accumulation ([sum_of ieee],
+   what C17_stats says st_sum is) denotes the rational number  sum_i len_i * val_i. *)
+From BT Require Proofs.FloatExact Proofs.FloatExactStats Proofs.C06FileFloat.
+
+Theorem C17_sum_ieee_on_grid : forall E G cl, FloatExact.grid_ok_sum E G -> Forall (FloatExact.vgrid E G) cl ->
+  (FloatExact.gabs E G cl < FloatExact.P53)%Z ->
+  is_fin (sum_of ieee cl) = true /\ (fl_Q (sum_of ieee cl) == sumQ cl)%Q /\
+  C06FileFloat.same_num (sum_of ieee cl) (sum_of exact cl) /\
+  FloatExact.gval E G (sum_of ieee cl) (FloatExact.gsum E G cl).
+Proof. exact FloatExactStats.sum_ieee_on_grid. Qed.
+Print Assumptions C17_sum_ieee_on_grid.
+
+(* the generator domain (stored values multiples of 1/8, |v| <= 1024, fewer than 2^24 bases; decidable):
+   every region of such a file *)
+Theorem C17_sum_ieee_in_domain : forall s e vals, FloatExact.in_exact_domain vals = true ->
+  let cl := clip_filter s e vals in
+  is_fin (sum_of ieee cl) = true /\ (fl_Q (sum_of ieee cl) == sumQ cl)%Q /\
+  C06FileFloat.same_num (sum_of ieee cl) (sum_of exact cl).
+Proof. exact FloatExactStats.sum_ieee_in_domain. Qed.
+Print Assumptions C17_sum_ieee_in_domain.
+
+Example C17_example_ieee_domain :
+  let vals := [ {| v_start := 2; v_end := 4; v_bits := 1065353216 |}; {| v_start := 6; v_end := 8; v_bits := 3212836864 |} ] in
+  FloatExact.in_exact_domain vals = true /\ sum_of ieee (clip_filter 3 8 vals) = sum_of exact (clip_filter 3 8 vals).
+Proof. cbv zeta. split; [vm_compute; reflexivity|]. vm_compute. reflexivity. Qed.
